@@ -369,6 +369,15 @@ def gen_corpus(rng, n, pbad=0.25, pgraph=0.15, names=NAMES):
             c = corrupt(rng, c)
             if rng.random() < 0.35:  # two independent problems in one call: which one is reported must not depend on iteration order
                 c = corrupt(rng, c)
+        if rng.random() < 0.08 and c.get("_axes") and c["op"] not in ("solve_axes", "solve_shapes", "matches"):
+            # a tensor factory (three signature classes) in place of the first tensor; all sizes by keyword so the call stays determinable
+            nd = [j for j, t in enumerate(c["tensors"]) if "shape" in t]
+            if nd:
+                c["tensors"][nd[0]] = {"factory": {"of": c["tensors"][nd[0]], "mode": "ok", "sig": rng.choice(["plain", "varkw", "name"])}}
+                for n2, s2 in c["_axes"].items():
+                    c["kw"].setdefault(n2, s2)
+                if len(nd) == 1:
+                    c["backend"] = "numpy"
         if rng.random() < pgraph and c["op"] not in ("solve_axes", "solve_shapes", "matches"):
             c["graph"] = True
         out.append(c)
